@@ -11,6 +11,11 @@ export CARGO_NET_OFFLINE=true
 demo=$(ls "$D"/demo/*.rs | head -1)
 name=$(basename "$demo" .rs)
 dest=$(grep -oE "flussab[a-z0-9-]*/(tests|examples)/$name\.rs" "$D/README.md" | head -1)
+if [ -z "$dest" ]; then
+  # README names only the directory ("cp ... flussab-cnf/tests/")
+  dir=$(grep -oE "flussab[a-z0-9-]*/(tests|examples)" "$D/README.md" | head -1)
+  [ -n "$dir" ] && dest="$dir/$name.rs"
+fi
 [ -n "$dest" ] || { echo "cannot find demo destination in README"; exit 2; }
 crate=${dest%%/*}; kind=$(echo "$dest" | cut -d/ -f2)
 # some changes only manifest without overflow checks / debug assertions
